@@ -168,6 +168,9 @@ pub fn check_instantiate(pre: &World, post: &World, msg: &Value, out: &Outcome, 
     if out.is_ok() {
         st.count("C13", "accepted_instantiations");
     }
+    if st.props.get("C13").map_or(0, |p| p.evals) % 97 == 1 {
+        st.sample("C13", || json!({"instantiate": msg, "oracle": v.class(), "observed": out.tag()}), 4);
+    }
     if out.is_ok() && !v.exact_ok {
         viol(viols, "C13", "instantiate", &format!("incoherent configuration accepted: {}", v.reason), format!("{}", msg));
     }
